@@ -58,6 +58,10 @@ type c01env struct {
 	handed   [2][]int       // hand-over order per tree
 	handedTo map[int]string // message -> token id of the instance it was handed to
 	handedN  map[int]int
+	// hand-overs of payload messages and handler returns, to let the readers work off their queues before the
+	// instances are finished at the end of the case (a reader that is still dispatching when the tree goes panics
+	// in TreeNodeInstance.Tree())
+	nAccepted, nHandled int
 	treeOf   map[int]int
 	wantTok  map[int]string // message -> fields of the token it was addressed to
 	sent     [2]int
@@ -285,6 +289,7 @@ func c01exec(c *h.Ctx, cs *h.Case) {
 				return
 			}
 			e.mu.Lock()
+			e.nAccepted++
 			if m3.V >= 2000 {
 				e.probeGot[m3.V]++
 				e.cond.Broadcast()
@@ -297,9 +302,32 @@ func c01exec(c *h.Ctx, cs *h.Case) {
 			e.handedN[m3.V]++
 			e.mu.Unlock()
 		}
+		rec.OnExit = func(d fix.Delivery) {
+			if d.Ty == 3 {
+				e.mu.Lock()
+				e.nHandled++
+				e.mu.Unlock()
+			}
+		}
 	}
 	onet.VerifSetHook(e.hook)
 	defer func() {
+		// the readers work off what was handed over (bounded: a message handed to an instance that was closing
+		// is never handled)
+		last, lastAt := -1, time.Now()
+		for dl := time.Now().Add(4 * time.Second); time.Now().Before(dl); time.Sleep(300 * time.Microsecond) {
+			e.mu.Lock()
+			a, hd := e.nAccepted, e.nHandled
+			e.mu.Unlock()
+			if hd >= a {
+				break
+			}
+			if hd != last {
+				last, lastAt = hd, time.Now()
+			} else if time.Since(lastAt) > 150*time.Millisecond {
+				break
+			}
+		}
 		e.mu.Lock()
 		e.ended = true
 		for t := range e.fireGate {
